@@ -160,13 +160,13 @@ Proof.
                (rp_hs p < last -> rp_fr p < last -> rp_hbc p < rp_hbc p1)).
   { rewrite (contig_next_unsent chs last p Hc) in E1 by lia.
     destruct (Z.ltb_spec (rp_hs p) last) as [Hlt|Hge].
-    - pose proof (unsent_rel_live last (S (length chs)) cf now chs Hc Hu p [] (rp_hbc p) Hhs) as H.
+    - pose proof (unsent_rel_live last (S (2 * length chs)) cf now chs Hc Hu p [] (rp_hbc p) Hhs) as H.
       lazy zeta in H. rewrite E1 in H. cbn [fst snd] in H.
       destruct H as (A & B & C & D & E & Fst); try lia; [constructor|].
-      pose proof (unsent_rel_class (rp_fr p) last (S (length chs)) cf now chs Hc) as H'.
-      pose proof (unsent_rel_static (S (length chs)) cf now chs p []) as Hs.
+      pose proof (unsent_rel_class (rp_fr p) last (S (2 * length chs)) cf now chs Hc) as H'.
+      pose proof (unsent_rel_static (S (2 * length chs)) cf now chs p []) as Hs.
       assert (Hreq1 : rp_req p1 = rp_req p).
-      { clear - E1. revert E1. generalize (@nil dgram). generalize (S (length chs)). intros fu. revert p p1 out1.
+      { clear - E1. revert E1. generalize (@nil dgram). generalize (S (2 * length chs)). intros fu. revert p p1 out1.
         induction fu as [|f IH]; intros p p1 out1 acc E; cbn [unsent_rel] in E; [inversion E; reflexivity|].
         destruct (next_unsent p chs) as [n|]; [|inversion E; reflexivity].
         destruct (rp_hs p + 1 <? n); [unfold gen_hb in E; apply IH in E; exact E|].
@@ -379,7 +379,9 @@ Proof.
     destruct F as (F1 & F2 & F3 & F4).
     refine (conj eq_refl (conj eq_refl (conj eq_refl (conj _ (conj _ _))))); try constructor; try lia.
     unfold RL. rewrite F1, F3, F4. repeat split; try lia; auto.
-  - destruct Hm as [Hf1 [Hc1 Hc2]]. destruct (on_hb cf w f l c) as [w1 o] eqn:Eh.
+  - destruct Hm as [Hf1 [Hc1 Hc2]].
+    assert (Ef0 : f <=? 0 = false) by (apply Z.leb_gt; lia). rewrite Ef0 in E.
+    destruct (on_hb cf w f l c) as [w1 o] eqn:Eh.
     rewrite (on_hb_nofrag cf w f l c R3) in Eh.
     assert (Hr1 : rd_wp r1 = Some w1 /\ rd_alive r1 = rd_alive r /\ rd_rel r1 = rd_rel r /\ out = o).
     { destruct (hist_received (rd_wp (rd_present r w1 None))); inversion E; subst; cbn; auto. }
@@ -580,7 +582,8 @@ Proof.
           destruct m; try (inversion Em; reflexivity).
           - destruct (on_data _ _ _) as [w1 oc]. inversion Em. destruct oc; reflexivity.
           - destruct (on_frag _ _ _ _ _) as [w1 oc]. inversion Em. destruct oc; reflexivity.
-          - destruct (on_hb _ _ _ _ _) as [w1 o1]. destruct (hist_received _); inversion Em; reflexivity. }
+          - destruct (first <=? 0); [inversion Em; reflexivity|].
+  destruct (on_hb _ _ _ _ _) as [w1 o1]. destruct (hist_received _); inversion Em; reflexivity. }
         rewrite (G _ _ _ _ _ E). exact (L4 r eq_refl). }
       linv_split; cbn; try assumption.
       all: try (intros r' Hr'; injection Hr' as <-; assumption).
@@ -594,7 +597,8 @@ Proof.
             destruct m; try (inversion Em; reflexivity).
             - destruct (on_data _ _ _) as [w1 oc]. inversion Em. destruct oc; reflexivity.
             - destruct (on_frag _ _ _ _ _) as [w1 oc]. inversion Em. destruct oc; reflexivity.
-            - destruct (on_hb _ _ _ _ _) as [w1 o1]. destruct (hist_received _); inversion Em; reflexivity. }
+            - destruct (first <=? 0); [inversion Em; reflexivity|].
+  destruct (on_hb _ _ _ _ _) as [w1 o1]. destruct (hist_received _); inversion Em; reflexivity. }
           rewrite (G _ _ _ _ _ E). exact (L4 r eq_refl). }
         linv_split; cbn; try assumption.
         all: try (intros r' Hr'; injection Hr' as <-; assumption).
@@ -943,7 +947,7 @@ Proof.
   match goal with |- context [let '(p1, out1) := ?X in _] => destruct X as [p1 out1] eqn:E1 end.
   apply req_loop_shape; [assumption|].
   destruct (next_unsent p chs).
-  - replace out1 with (snd (unsent_rel (S (length chs)) cf now chs p [])) by (rewrite E1; reflexivity).
+  - replace out1 with (snd (unsent_rel (S (2 * length chs)) cf now chs p [])) by (rewrite E1; reflexivity).
     apply unsent_rel_shape; [assumption|constructor].
   - destruct (negb _); [inversion E1; constructor|].
     destruct (time_for_hb p now); unfold gen_hb in E1; inversion E1; constructor; constructor.
@@ -956,8 +960,8 @@ Proof.
   destruct (next_unsent p chs) as [n|]; [|assumption].
   destruct (rp_hs p + 1 <? n).
   - apply IH. apply Forall_app; split; [assumption|]. constructor; [constructor|constructor].
-  - destruct (find_change n chs) as [c|] eqn:El.
-    + apply find_change_in in El. destruct El as [Hc _].
+  - destruct (lookup_relevant p n chs) as [c|] eqn:El.
+    + apply lookup_relevant_in in El. destruct El as (Hc & _ & _).
       assert (1 <? nfrags cf c = false) as -> by (apply Z.ltb_ge; apply Hu; assumption).
       apply IH. apply Forall_app; split; [assumption|]. constructor; [constructor|constructor].
     + apply IH. apply Forall_app; split; [assumption|]. constructor; [constructor|constructor].
@@ -986,7 +990,7 @@ Proof.
     + destruct (_ <=? _); [|inversion Ed; subst; lia].
       destruct (_ <? _); inversion Ed; subst; cbn; destruct (Z.ltb_spec (wp_hr w) (c_sn c)); lia.
   - inversion E; subst. exists (on_gap w start base). cbn [rd_present rd_wp].
-    unfold on_gap. destruct ((start <? base) && (wp_hr w <? base - 1)) eqn:Eg; cbn; repeat split; try lia; try assumption.
+    unfold on_gap. destruct ((start <? base) && (start <=? avail_max w + 1) && (wp_hr w <? base - 1)) eqn:Eg; cbn; repeat split; try lia; try assumption.
     all: try (apply andb_prop in Eg; destruct Eg as [_ Eg]; apply Z.ltb_lt in Eg; lia).
 Qed.
 
@@ -996,9 +1000,11 @@ Lemma step_hb cf r w f l c r1 out : rd_wp r = Some w -> wp_frags w = [] ->
     ((wp_hb w < c /\ wp_hb w1 = c /\ wp_an w1 = wp_an w + 1 /\ wp_la w1 = l /\
       out = [toW [SAck (Z.max (f - 1) (wp_hr w) + 1)
                        (firstn 256 (zrange (Z.max f (wp_hr w + 1)) (Z.max l (wp_hr w)))) (wp_an w + 1)]]) \/
-     (c <= wp_hb w /\ w1 = w /\ out = [])).
+     ((c <= wp_hb w \/ f <= 0) /\ w1 = w /\ out = [])).
 Proof.
   intros Ew Hfr E. unfold deliver_sub_R in E. rewrite Ew in E.
+  destruct (Z.leb_spec f 0) as [Hf0|Hf0].
+  { inversion E; subst. exists w. refine (conj Ew (conj Hfr (conj eq_refl (or_intror _)))). repeat split; auto. }
   destruct (on_hb cf w f l c) as [w1 o1] eqn:Eh. rewrite (on_hb_nofrag cf w f l c Hfr) in Eh.
   assert (Hr1 : rd_wp r1 = Some w1 /\ out = o1).
   { destruct (hist_received (rd_wp (rd_present r w1 None))); inversion E; subst; cbn; auto. }
@@ -1013,7 +1019,7 @@ Lemma deliver_R_shape cf r w d r1 out : rd_wp r = Some w -> wp_frags w = [] -> n
   deliver_subs_R cf r (dg_subs d) [] = (r1, out) ->
   exists w1, rd_wp r1 = Some w1 /\ wp_frags w1 = [] /\ wp_hr w <= wp_hr w1 /\
     ((wp_hb w1 = wp_hb w /\ wp_an w1 = wp_an w /\ wp_la w1 = wp_la w /\ out = [] /\
-      (forall f l c, In (SHb f l c) (dg_subs d) -> c <= wp_hb w)) \/
+      (forall f l c, In (SHb f l c) (dg_subs d) -> c <= wp_hb w \/ f <= 0)) \/
      (exists f l c, In (SHb f l c) (dg_subs d) /\ wp_hb w < c /\ wp_hb w1 = c /\ wp_an w1 = wp_an w + 1 /\
         wp_la w1 = l /\
         out = [toW [SAck (Z.max (f - 1) (wp_hr w1) + 1)
@@ -1074,7 +1080,7 @@ Proof.
   match goal with |- context [let '(p1, out1) := ?X in _] => destruct X as [p1 out1] eqn:E1 end.
   rewrite req_loop_an.
   destruct (next_unsent p chs).
-  - replace p1 with (fst (unsent_rel (S (length chs)) cf now chs p [])) by (rewrite E1; reflexivity).
+  - replace p1 with (fst (unsent_rel (S (2 * length chs)) cf now chs p [])) by (rewrite E1; reflexivity).
     apply unsent_rel_an.
   - destruct (negb _); [inversion E1; reflexivity|].
     destruct (time_for_hb p now); unfold gen_hb in E1; inversion E1; reflexivity.
@@ -1378,7 +1384,8 @@ Proof.
       rewrite C1, C2, app_nil_r. split.
       * destruct GA as [GA|(d0 & f0 & l0 & Hd0 & Hs0)]; [left; assumption|].
         destruct (dgram_eq_dec d0 d) as [->|Hne].
-        -- left. specialize (C5 f0 l0 _ Hs0). lia.
+        -- left. destruct (C5 f0 l0 _ Hs0) as [Hle|Hle]; [lia|].
+           rewrite Forall_forall in Hlsub. pose proof (Hlsub _ Hs0) as Hq. cbn in Hq. lia.
         -- right. exists d0, f0, l0. split; [apply Hother; assumption|assumption].
       * intros Hp. destruct (GC Hp) as (D1 & (d0 & Hd0 & Hk0) & D3). split; [assumption|]. split.
         -- exists d0. split; [|assumption]. apply Hother; [assumption|]. intros ->.
